@@ -242,6 +242,12 @@ def audit(mods, pid):
     flat = re.sub(r"\n\s+", " ", o)
     for m in re.finditer(r"AUDIT (\S+) (\S+) \[(.*?)\]", flat):
         mod, name, axs = m.group(1), m.group(2), [a.strip() for a in m.group(3).split(",") if a.strip()]
+        # equation / injectivity / sizeOf lemmas Lean generates for definitions and inductive types are audited for
+        # axioms like everything else but are not counted as proof obligations
+        if re.search(r"\.(inj|injEq|sizeOf_spec|noConfusion\w*|eq_\d+|eq_def|induct\w*|fun_cases\w*|congr_simp|ctorIdx\w*|match_\d+\S*|below\S*|brecOn\S*|unfold\S*)$", name):
+            if any(a not in ALLOWED_AXIOMS for a in axs):
+                bad.append({"module": mod, "theorem": name, "axioms": axs})
+            continue
         thms.append({"module": mod, "theorem": name, "axioms": axs})
         if any(a not in ALLOWED_AXIOMS for a in axs):
             bad.append({"module": mod, "theorem": name, "axioms": axs})
